@@ -336,8 +336,13 @@ class _Activation:
                 self.stmt(s)
         elif isinstance(st, ast.If):
             self.eval(st.test)
-            for s in st.body + st.orelse:
-                self.stmt(s)
+            # the statements of a branch may not run: a field store under a condition adds a referent, it does not replace the old one
+            self.cond_depth = getattr(self, "cond_depth", 0) + 1
+            try:
+                for s in st.body + st.orelse:
+                    self.stmt(s)
+            finally:
+                self.cond_depth -= 1
         elif isinstance(st, ast.Try):
             for s in st.body:
                 self.stmt(s)
@@ -424,7 +429,7 @@ class _Activation:
                     self.oa.call_function(setter, {ps[0]: base, ps[1]: vals}, self.newctx(st))
                     return
             self.oa.record(self.fi, st, base, "attribute:" + target.attr, self.ctx, target.attr)
-            if len(base) == 1 and self.loop_depth == 0:
+            if len(base) == 1 and self.loop_depth == 0 and getattr(self, "cond_depth", 0) == 0:
                 o = next(iter(base))
                 if o.kind == "alloc" and self.uid in self.oa.unique_in.get(o, ()):
                     # strong update: o is a single concrete object here, the old referent is gone
